@@ -467,6 +467,8 @@ package message
 //@   assume forall m HandlerMiddleware, f HandlerFunc :: m != nil && f != nil ==> app(m, f) != nil [ASSUMED-a-middleware-returns-a-handler]
 //@   callee CANCEL = cancel : total
 //@   maypanic
+//@   ghost mark unregistered(r, h) @unlock:r.handlersLock when !has(r.handlers, name)
+//@   assert @close:h.stopped: mark(unregistered, r, h) [Stopped-is-announced-only-after-the-handler-was-taken-out-of-the-routers-table-so-its-name-is-free-again]
 //@   ensures closed(h.stopped) [Stopped-is-closed-once-the-handler-has-ended-whatever-state-the-router-is-in]
 //@   ensures calls(CANCEL) == old(calls(CANCEL)) + 1 [the-subscription-context-is-released]
 
